@@ -23,7 +23,7 @@ COUNTERS = {"refactor_tolerant_matches": 0, "strict_matches": 0, "kinds": {}}
 
 def slice_impl(V, F, o, n, mask, ret_map=True):
     from polliwog.plane import slice_triangles_by_plane
-    return slice_triangles_by_plane(shcopy(V), shcopy(F), shcopy(o), shcopy(n),
+    return slice_triangles_by_plane(shcopy(V, keep_dtype=True), shcopy(F), shcopy(o), shcopy(n),
                                     faces_to_slice=None if mask is None else mask.copy(), ret_face_mapping=ret_map)
 
 
